@@ -411,9 +411,10 @@ partial def loop (h : IO.FS.Stream) (out : IO.FS.Stream) (st : DState) : IO Unit
         if (sub.find? (·.name = it.name)).isNone || !frag then Json.mkObj [("in", Json.bool false)]
         else
           match Tree.itemBody cfg sub it, TsParse.parseDecl d with
-          | some b, some (n, _, pb) =>
+          | some b, some (n, ps, pb) =>
             Json.mkObj [("in", Json.bool true),
-              ("eq", Json.bool (n == Derive.tsName it && Ts.beq (Ts.norm [] [] 60 b) (Ts.norm [] [] 60 pb)))]
+              ("eq", Json.bool (n == Derive.tsName it && ps == it.generics.map (·.name)
+                && Ts.beq (Ts.norm [] [] 60 b) (Ts.norm [] [] 60 (TsParse.bindParams ps pb))))]
           | _, _ => Json.mkObj [("in", Json.bool true), ("eq", Json.bool false), ("unparsed", Json.bool true)]
       out.putStrLn (Json.mkObj [("frag", Json.bool frag), ("sub", Json.num sub.length), ("rows", Json.arr rows.toArray)]).compress
       loop h out st
